@@ -157,6 +157,16 @@ PROPS = {
                 "the Lean model is hand-written; its tie to the Rust code is the differential run (sampled, plus the stated exhaustive scopes)"
         ]
 },
+    "C14": {
+        "claim": "Panic-freedom of the modelled code is proved in Lean for every input: the whole verification pipeline over arbitrary link directories (including the summary's table lookups), rule application on arbitrary paths, block verification, PAE unpacking and KeyId::prefix; the inventory of every unwrap/expect/panic!/assert!/index site in the crate is regenerated from the source on every run and must be fully classified. Library code (serde_json, ring, derp, pem, glob, chrono, walkdir) is fuzzed only: byte-level mutations of valid documents and raw bytes into every parser and key importer, nesting beyond the recursion limit, extreme numbers, and verification over link directories seeded with hostile files.",
+        "level_note": "Partial by nature: a proof covers the repo's own slicing/indexing/unwrap sites through their models; absence of panics, aborts, stack overflow and non-termination in the libraries is sampled, not proved. Delegation recursion is bounded by PATH_MAX (argued, not proved).",
+        "technique": "Lean 4 no-panic theorems about the executable models + panic-site inventory translated from the Rust source on every run; fuzz streams as supporting evidence for library code",
+        "translate": ["panics.py"],
+        "rule": "ops = prefix8 on key ids the parser accepts (ASCII and non-ASCII, 64 bytes); fuzz cases (not ops) = mutated valid layouts/links/blocks/keys/statements/predicates/PAE, random bytes and generated JSON into 8 parsers and 12 key-importer entry points, deep nesting, extreme numbers, hostile link directories through in_toto_verify; distinct = distinct op; non-trivial = 64-byte ids",
+        "trusted_base": ["translate/panics.py + translate/panic_sites.json (hand-kept classification with a reason per site)", "library code is fuzzed, not proved"],
+        "partial": ["library parsers and importers: sampled by fuzzing only", "sites classified unreachable / libraryTotal / callerContract are argued in panic_sites.json, not proved"],
+        "assumptions": COMMON_ASSUME,
+    },
     "C15": {
         "claim": "verify = ok implies every sub-layout that counted as evidence is listed under an authorized key of the step, carries that key's valid signature, and has itself passed the complete verify routine with that single key, the step's name and the sub-directory <step>.<prefix8>; plus the summary theorem (requested name; first step's materials; last step's products and command/byproducts; empty link for a step-less layout). Lean theorems; delegation scenarios (depth 1-2) with every inner failure mode on the real code.",
         "level_note": "Trusted: Lean kernel; recursion depth is fuel in the model (running out is an error, never a success).",
